@@ -50,6 +50,10 @@ type icScenario struct {
 	// Remote: some files (a set closed under "imports") live in a remote repository and are imported by
 	// //host/org/repo/path spellings; the substituted reader serves them like any other file
 	Remote bool `json:"remote"`
+	// Twins: the files share one base name and live in directories whose names differ only in leading dots, case or
+	// an underscore, so that resolved names of different files are equal up to such a difference (d1/m.sysl, .d1/m.sysl,
+	// D1/m.sysl, d1/M.sysl ...); only for graphs without faults (error texts name files by base name)
+	Twins bool `json:"twins"`
 }
 
 type icWaiter struct {
@@ -184,7 +188,41 @@ func (r *icRun) render() {
 	r.byPath = map[string]string{}
 	r.content = map[string]string{}
 	r.nimp = map[string]int{}
+	twins := r.sc.Twins
+	for _, k := range r.sc.Fail {
+		if k != "none" && k != "" {
+			twins = false
+		}
+	}
+	if twins {
+		// near-miss names: every pair of paths below differs, many pairs only in leading dots, case or an underscore
+		tdirs := []string{"", ".d1", "d1", "..d1", "D1", "_d1", "d1/d2", "d1/.d2", ".d1/d2", ".d1/.d2", "d1/D2"}
+		tbases := []string{"m", "M", "_m", "m_"}
+		used := map[string]bool{}
+		for _, f := range r.sc.Files {
+			for {
+				dir := tdirs[rng.Intn(len(tdirs))]
+				base := tbases[0]
+				if rng.Intn(3) == 0 {
+					base = tbases[rng.Intn(len(tbases))]
+				}
+				if f == r.sc.Root {
+					dir = ""
+				}
+				p := path.Join(dir, base+".sysl")
+				if !used[p] {
+					used[p] = true
+					r.paths[f] = p
+					r.byPath[p] = f
+					break
+				}
+			}
+		}
+	}
 	for _, f := range r.sc.Files {
+		if twins {
+			break
+		}
 		dir := dirs[rng.Intn(len(dirs))]
 		if f == r.sc.Root {
 			dir = ""
